@@ -180,7 +180,11 @@ pub fn build(quick: bool) -> PropRun {
         if sname == "two-clients-one-refused" { cfg.max_active = 1; cfg.max_total = 1; }
         let mut env = EwEnv::basic(if quick { 5 } else { 8 }, 80);
         env.fates = DF_BASIC; env.deltas = &[100, 2000]; env.fair_delta = 500;
-        scs.push(ew_scenario_tracked(&format!("C19.ew.{}", sname), cfg, script, env, if quick { 1 } else { 2 }, if quick { 14 } else { 30 }));
+        scs.push(ew_scenario_tracked(&format!("C19.ew.{}", sname), cfg.clone(), script.clone(), env.clone(), if quick { 1 } else { 2 }, if quick { 14 } else { 30 }));
+        // applications that keep the event iterator of one step() across their next call of step() and read it afterwards
+        let mut late = env; late.late_events = true;
+        let mut s2 = script; s2.extend(vec![after_s(0, 3, Act::SSend(0, 0, Reliable, 21)), after_s(0, 3, Act::SSend(0, 0, Reliable, 22)), after_s(0, 4, Act::SSend(0, 0, Reliable, 23)), after_c(0, 3, Act::CSend(0, 3, Reliable, 24)), after_c(0, 4, Act::CSend(0, 3, Reliable, 25))]);
+        scs.push(ew_scenario_tracked(&format!("C19.ew.events-read-one-step-late.{}", sname), cfg, s2, late, if quick { 1 } else { 2 }, if quick { 14 } else { 30 }));
     }
     scs.push(forged_reassembly());
     // a handshake that never completes while the application has already queued packets (they wait in the pending client), run into the
